@@ -489,6 +489,15 @@ impl BudgetEnforcer {
         Ok(())
     }
 
+    /// An alias that stands for itself (nothing is replayed for it: an alias of the anchor that is
+    /// still being deserialized). It has been counted as an alias; what is left to do is to advance
+    /// the key / value bookkeeping of the enclosing mapping, as the replayed node would have.
+    pub(crate) fn alias_stands_for_itself(&mut self) {
+        if self.aliases_expanded {
+            self.handle_alias();
+        }
+    }
+
     fn handle_alias(&mut self) {
         if let Some(ContainerState::Mapping { expecting_key, .. }) = self.containers.last_mut() {
             if *expecting_key {
